@@ -416,6 +416,68 @@ def r6_shared_recognisers(ctx):
         for o in fn(ctx):
             yield o
 
+def stale_segment_values(ctx, modname, qual, loop_iter):
+    """In the segment loop of a driver, a value read from a non-envelope segment (BHT02 ...) describes the CURRENT
+    transaction set only.  Envelope values (ISA/GS/ST elements) legitimately live across iterations, they are
+    re-read at the next header; anything else that is read in a later iteration than it was stored in is stale: every
+    use of such a variable must be preceded, in the same iteration, by its assignment."""
+    fn = ctx.func(modname, qual)
+    g = ctx.cfg(fn)
+    from ..cfg import reaching_defs
+    IN, DEFS = reaching_defs(g)
+    dom = g.dominators()
+    loops = [n for n in ast.walk(fn) if isinstance(n, ast.For) and path_of(n.iter) == loop_iter]
+    if len(loops) != 1:
+        raise AnalysisError('%s: segment loop not found' % qual)
+    lp = loops[0]
+    inside = set()
+    for nd in g.nodes:
+        p_ = nd.stmt
+        while p_ is not None:
+            if p_ is lp:
+                inside.add(nd.id)
+                break
+            p_ = getattr(p_, '_parent', None)
+    ENVELOPE = ('ISA', 'GS', 'ST', 'SE', 'GE', 'IEA')
+    carried = {}
+    for nd in g.nodes:
+        if nd.id not in inside:
+            continue
+        for nm, v in DEFS[nd.id]:
+            if v is None or isinstance(v, tuple):
+                continue
+            for c in A.calls_in(v):
+                if A.call_target(c)[1] == 'get_value' and c.args and A.is_str(c.args[0]):
+                    rd = c.args[0].value
+                    sid = rd[:-2] if rd[-2:].isdigit() else rd
+                    if sid and sid not in ENVELOPE and not sid.isdigit():
+                        carried.setdefault(nm, []).append((nd, rd))
+    n = 0
+    for nm, defs in sorted(carried.items()):
+        def_ids = {d.id for d, _ in defs}
+        for nd in g.nodes:
+            if nd.id not in inside:
+                continue
+            for x in g.walk_exprs(nd):
+                if isinstance(x, ast.Name) and x.id == nm and isinstance(x.ctx, ast.Load):
+                    n += 1
+                    rd = (IN.get(nd.id) or {}).get(nm, frozenset())
+                    # every definition reaching the use is one of this iteration: it dominates the use
+                    stale = [d for d in rd if d not in dom[nd.id] or d not in inside]
+                    ok = not stale
+                    yield Ob('%s:%s use of %s (from %s) follows its assignment in the same iteration' % (modname, qual, nm, defs[0][1]), ok,
+                             ctx.floc(fn, x), '' if ok else 'the value of %s read here can be the one stored while an EARLIER transaction set was '
+                             'processed (it is taken from %s, which is not an envelope element): a decision about this set is made from the previous one'
+                             % (nm, defs[0][1]))
+    yield Ob('%s:%s values of non-envelope segments are not carried across iterations' % (modname, qual), True, ctx.floc(fn, lp),
+             note='%d use(s) of %d such variable(s) examined' % (n, len(carried)), nontrivial=False)
+
+
+def r7_no_stale_map_key(ctx):
+    for o in stale_segment_values(ctx, 'x12n_document', 'x12n_document', 'src'):
+        yield o
+
+
 RULES = [
     Rule('C02.R1', 'every index entry is selectable: whitelist, the map\'s own envelope code lists, BHT tuple', r1_selectable, floor=90),
     Rule('C02.R2', 'literal map paths in code resolve in every map they are applied to', r2_literal_paths, floor=22),
@@ -423,4 +485,5 @@ RULES = [
     Rule('C02.R4', 'constant child indices of the segment matchers exist in every applicable segment node', r4_matcher_indices, floor=2000),
     Rule('C02.R5', 'walker counting/ordering atoms: limits, resets, pending-missing conditions, position filter', r5_walker_wiring, floor=12),
     Rule('C02.R6', 'shared with C13.R1/R3/R4: the recognisers accept every value of the X12 value languages', r6_shared_recognisers, floor=33),
+    Rule('C02.R7', 'the map-switch key (BHT02) is never carried from one transaction set to the next', r7_no_stale_map_key, floor=1),
 ]
